@@ -3,6 +3,7 @@ import JaqalProofs.Lemmas.PyEqSymm
 import JaqalProofs.Lemmas.Generator
 import JaqalProofs.Lemmas.GeneratorTotal
 import JaqalProofs.Lemmas.PyEqSound
+import JaqalProofs.Lemmas.ParsedParserLike
 import JaqalModel.Spec.Sem
 /-!
 # C20 — circuit equality
@@ -19,6 +20,13 @@ can raise: only stored attributes are read).
   (`valEq` for values); contrapositive: changing the field to a value that is not `==` gives `False`.
 * `C20_sound`           — parser-like circuits (same macro definition order) that compare equal have identical
   declarations and the same gate-level meaning `Sem.meaning ρ` for every override environment `ρ`, numbers by value.
+  `C20_sound_ordered`: the same without the common order (callees first in each list is enough).
+* **`C20_sound_parsed`** — UNCONDITIONAL for what the parser produces: two circuits `parse_jaqal_string` returns
+  (`autoload_pulses=False`, any `inject_pulses`, any two texts) that compare equal have identical declarations and the
+  same meaning under every `ρ`.  Through `C20_sound_parsedLike` (the invariant `ParsedLike`, `Lemmas/PyEqSound.lean`,
+  which — unlike `ParserLike` — holds of every parser-produced circuit: `parsed_parserLike`,
+  `Lemmas/ParsedParserLike.lean`) and the order-independence of the macro table (`denote_look`).
+  `C20_sound_full` (no order, no callees-first) is FALSE: `C20_sound_full_false`.
 * generator lemmas for C01: `C20_gen_splice`, `C20_gen_names`, `C20_gen_total`.
 -/
 namespace Jaqal.C20
@@ -300,23 +308,62 @@ theorem C20_sound (ρ : Sem.Env) (a b : Circuit) (ha : ParserLike a) (hb : Parse
   obtain ⟨h1, _, _, h4, _, _⟩ := C20_discriminates_circuit h
   exact ⟨dictEq_true h1, dictEq_true h4, meaning_rel ρ a b ha hb horder h⟩
 
-/-- The statement without the hypothesis on the order of the macro dictionaries. NOT proved, and false for the
-model as it stands: `Sem.denoteMacros` lets a macro call only the macros listed before it, `dict.__eq__` ignores
-the order; `[m1, m2 calls m1]` against `[m2 calls m1, m1]` compare equal and denote differently. For circuits built
-from text the order of the dictionary is the definition order and the builder refuses a macro whose name is already
-used as a gate, so two equal parser-produced circuits do list their macros in the same order; making that an
-invariant of `ParserLike` (calls go to earlier macros only) and deriving `horder` from it is what is missing. -/
+/-- `C20_sound` without the hypothesis on the common ORDER of the two macro dictionaries (`dict.__eq__` ignores the
+order): it is enough that in each list every macro body calls, of the circuit's macros, only macros listed before it —
+the denotation of a macro is then the meaning of its body under the FULL table (`lookup_denote_ordered`), and the tables
+of the two circuits agree name by name (`denote_look`). -/
+theorem C20_sound_ordered (ρ : Sem.Env) (a b : Circuit) (ha : ParserLike a) (hb : ParserLike b)
+    (hoa : MacrosOrdered a.macros) (hob : MacrosOrdered b.macros) (h : circuitEq a b = true) :
+    (a.constants.length = b.constants.length ∧
+      ∀ x ∈ a.constants, ∃ y ∈ b.constants, y.name? = x.name? ∧ valEq x y = true) ∧
+    (a.registers.length = b.registers.length ∧
+      ∀ x ∈ a.registers, ∃ y ∈ b.registers, y.name? = x.name? ∧ valEq x y = true) ∧
+    MeaningEq (Sem.meaning ρ a) (Sem.meaning ρ b) := by
+  obtain ⟨h1, _, _, h4, _, _⟩ := C20_discriminates_circuit h
+  exact ⟨dictEq_true h1, dictEq_true h4, meaning_rel_ordered ρ a b ha hb hoa hob h⟩
+
+/-- The statement for `ParserLike` circuits without any hypothesis on the macro lists. FALSE (`C20_sound_full_false`):
+`Sem.denoteMacros` lets a macro call only the macros listed before it, `dict.__eq__` ignores the order;
+`[m1, m2 calls m1]` against `[m2 calls m1, m1]` compare equal and denote differently.  What is true: `C20_sound_ordered`
+(callees first in each list) and, for everything the parser produces, `C20_sound_parsed`. -/
 def C20_sound_full : Prop :=
   ∀ (ρ : Sem.Env) (a b : Circuit), ParserLike a → ParserLike b → circuitEq a b = true →
     MeaningEq (Sem.meaning ρ a) (Sem.meaning ρ b)
 
+/-- `macro m1 { g }`, `macro m2 { m1 }` and the statement `m2`, the macro dictionary in the given order -/
+def mkBad (swap : Bool) : Circuit :=
+  let m1 : Macro := { name := "m1", params := [], body := .block false false (.int 1) [.gate "g" { name := "g", tag := .native, params := [] } []] }
+  let m2 : Macro := { name := "m2", params := [], body := .block false false (.int 1) [.gate "m1" { name := "m1", tag := .macro, params := [] } []] }
+  { macros := if swap then [m2, m1] else [m1, m2],
+    body := .block false false (.int 1) [.gate "m2" { name := "m2", tag := .macro, params := [] } []] }
+
+theorem mkBad_parserLike (swap : Bool) : ParserLike (mkBad swap) := by
+  cases swap
+  all_goals
+    refine { constKeys := by simp [mkBad], regKeys := by simp [mkBad], macroKeys := by simp [mkBad],
+             nativeKeys := by simp [mkBad], bodyOk := ?_, macrosOk := ?_ }
+    · simp [mkBad, StmtAll, StmtsAll]
+    · intro m hm
+      simp only [mkBad, Bool.false_eq_true, if_false, if_true, List.mem_cons, List.not_mem_nil, or_false] at hm
+      rcases hm with rfl | rfl <;> simp [StmtAll, StmtsAll]
+
+/-- `C20_sound_full` is false: a macro dictionary listing a caller before its callee is a list the builder never makes,
+and `Sem.denoteMacros` reads it differently. -/
+theorem C20_sound_full_false : ¬ C20_sound_full := by
+  intro hfull
+  have heq : circuitEq (mkBad false) (mkBad true) = true := by
+    simp [circuitEq, dictEq, mkBad, stmtEq, stmtsEq, argsEq, macroEq, paramsEq, listEqB, valEq, Num.veq]
+  have := hfull [] _ _ (mkBad_parserLike false) (mkBad_parserLike true) heq
+  simp [MeaningEq, Sem.meaning, Sem.denoteMacros, mkBad, Sem.evalStmt, Sem.evalStmts, Sem.lookup, Sem.evalInt, Sem.evalNum,
+    bind, Except.bind, pure, Except.pure, Sem.Sem.norm, Sem.normList, MRel, SemRel, SemsRel] at this
+
 theorem mkC_parserLike (idx : Val) : ParserLike (mkC idx) := by
   refine { toDictKeys := mkC_dictKeys idx, bodyOk := ?_, macrosOk := ?_ }
-  · simp [mkC, StmtOk, StmtsOk, ArgOk, SrcOk, Val.name?]
+  · simp [mkC, StmtAll, StmtsAll, ArgOk, SrcOk, Val.name?]
   · intro m hm
     simp only [mkC, List.mem_singleton] at hm
     subst hm
-    simp [StmtOk, StmtsOk, ArgOk]
+    simp [StmtAll, StmtsAll, ArgOk]
 
 example : ParserLike exC := mkC_parserLike _
 
@@ -328,6 +375,160 @@ example : ParserLike exC' ∧ circuitEq exC exC' = true ∧ exC.macros.map (·.n
   refine ⟨mkC_parserLike _, ?_, rfl, by simp [exC, exC', mkC]⟩
   simp [circuitEq, dictEq, exC, exC', mkC, valEq, Val.name?, Num.veq, stmtEq, stmtsEq, argsEq, macroEq, paramsEq, listEqB,
     Dec.isIntegral, Dec.toInt]
+
+/-! ### soundness for everything the parser produces -/
+
+/-- Two `ParsedLike` circuits (`Lemmas/PyEqSound.lean`: dictionaries; every qubit reference is an element `s[i]` of the
+parameter `s` / of the unshadowed declared register `s` under a name that is not declared, or has a declared source and a
+declared name; no `None` argument; callees first in the macro list) that compare equal have identical declarations and
+the same gate-level meaning under every override environment `ρ` — in whatever order the two macro dictionaries list
+their macros. -/
+theorem C20_sound_parsedLike (ρ : Sem.Env) (a b : Circuit) (ha : ParsedLike a) (hb : ParsedLike b)
+    (h : circuitEq a b = true) :
+    (a.constants.length = b.constants.length ∧
+      ∀ x ∈ a.constants, ∃ y ∈ b.constants, y.name? = x.name? ∧ valEq x y = true) ∧
+    (a.registers.length = b.registers.length ∧
+      ∀ x ∈ a.registers, ∃ y ∈ b.registers, y.name? = x.name? ∧ valEq x y = true) ∧
+    MeaningEq (Sem.meaning ρ a) (Sem.meaning ρ b) := by
+  obtain ⟨h1, _, _, h4, _, _⟩ := C20_discriminates_circuit h
+  exact ⟨dictEq_true h1, dictEq_true h4, meaning_rel_parsed ρ a b ha hb h⟩
+
+/-- **C20 soundness, unconditional for parser-produced circuits.**  Two circuits returned by `parse_jaqal_string`
+(`autoload_pulses=False`, any `inject_pulses`; any two texts, any two configurations) that compare equal with `==` have
+
+* identical `let` declarations and identical register / alias declarations (name by name, numbers by value), and
+* the same gate-level meaning under every override environment `ρ` (numbers by value: `1 == 1.0`).
+
+`NamedQubit.__eq__` looks at `alias_from.name` only; the proof closes that gap with the register dictionaries, which
+`Circuit.__eq__` does compare, and with the reference's own name, which tells an element `s[i]` written in place (whose
+source is whatever the identifier `s` means in that scope) from a header alias reached by name (whose source is a
+declared register, whatever the enclosing macro's parameters are called).  `dict.__eq__` ignores the order of the macro
+dictionaries; so does the meaning, because the builder lets a macro call only macros defined before it. -/
+theorem C20_sound_parsed (cfgA cfgB : Builder.Config) (ta tb : String) (a b : Circuit) (ρ : Sem.Env)
+    (haA : cfgA.autoload = false) (haB : cfgB.autoload = false)
+    (ha : Pipeline.parseProgram cfgA ta = .ok a) (hb : Pipeline.parseProgram cfgB tb = .ok b)
+    (h : circuitEq a b = true) :
+    (a.constants.length = b.constants.length ∧
+      ∀ x ∈ a.constants, ∃ y ∈ b.constants, y.name? = x.name? ∧ valEq x y = true) ∧
+    (a.registers.length = b.registers.length ∧
+      ∀ x ∈ a.registers, ∃ y ∈ b.registers, y.name? = x.name? ∧ valEq x y = true) ∧
+    MeaningEq (Sem.meaning ρ a) (Sem.meaning ρ b) :=
+  C20_sound_parsedLike ρ a b (RoundTrip.parsed_parserLike haA ha) (RoundTrip.parsed_parserLike haB hb) h
+
+/-! #### non-vacuity: the program whose alias has a shadowed source -/
+
+/-- `register r[2]; map q r[1]; macro m r { g q }; m r`: inside `m` the argument `q` is the header's alias, whose source
+is the REGISTER `r`, while `r` is also the parameter of `m` -/
+def shadowTxt : String := "register r[2]\nmap q r[1]\nmacro m r { g q }\nm r\n"
+
+/-- the text is accepted; the register dictionary is `r`, `q = r[1]`; the one macro has the parameter `r` and its body
+is the one gate statement whose argument is that very `q`, source `Register r` -/
+theorem C20_shadow_accepted :
+    (match Pipeline.parseProgram {} shadowTxt with
+     | .ok c =>
+       decide (c.registers = [.regF "r" (.int 2), .qubit "q" (.regF "r" (.int 2)) (.int 1)]) &&
+       (match c.macros with
+        | [m] => decide (m.params = [("r", Kind.none)]) &&
+          (match m.body with
+           | .block _ _ _ [.gate _ _ [a]] => decide (a.2 = .qubit "q" (.regF "r" (.int 2)) (.int 1))
+           | _ => false)
+        | _ => false)
+     | .error _ => false) = true := by decide +kernel
+
+/-- its circuit is `ParsedLike` (as every parser-produced circuit), NOT `ParserLike` (the source `r` of `q` is named
+like the parameter `r` and is not that parameter), and `c == c` -/
+theorem C20_shadow_parsedLike_not_parserLike :
+    ∃ c, Pipeline.parseProgram {} shadowTxt = .ok c ∧ ParsedLike c ∧ ¬ ParserLike c ∧ circuitEq c c = true := by
+  have h0 := C20_shadow_accepted
+  cases h : Pipeline.parseProgram {} shadowTxt with
+  | error e => rw [h] at h0; cases h0
+  | ok c =>
+    rw [h] at h0
+    simp only [Bool.and_eq_true, decide_eq_true_eq] at h0
+    obtain ⟨hregs, hm⟩ := h0
+    refine ⟨c, rfl, RoundTrip.parsed_parserLike rfl h, ?_, circuitEq_refl c (RoundTrip.parsed_wf rfl h)⟩
+    intro hpl
+    split at hm
+    · rename_i m hmac
+      simp only [Bool.and_eq_true, decide_eq_true_eq] at hm
+      obtain ⟨hpar, hb⟩ := hm
+      split at hb
+      · rename_i p1 p2 p3 g1 g2 a hbody
+        have hok := hpl.macrosOk m (by rw [hmac]; simp)
+        rw [hbody, hpar] at hok
+        simp only [StmtAll, StmtsAll] at hok
+        have ha := hok.1 a (by simp)
+        rw [of_decide_eq_true hb] at ha
+        rcases ha with ⟨p, k, hp, _⟩ | ⟨_, hs⟩
+        · cases hp
+        · exact hs "r" rfl (by simp)
+      · cases hb
+    · cases hm
+
+/-- the hypotheses of `C20_sound_parsed` are satisfiable by that program -/
+example (ρ : Sem.Env) : ∃ c, Pipeline.parseProgram {} shadowTxt = .ok c ∧ MeaningEq (Sem.meaning ρ c) (Sem.meaning ρ c) := by
+  obtain ⟨c, h, _, _, heq⟩ := C20_shadow_parsedLike_not_parserLike
+  exact ⟨c, h, (C20_sound_parsed {} {} _ _ c c ρ rfl rfl h h heq).2.2⟩
+
+/-! #### non-vacuity: equal circuits whose macro dictionaries list the macros in different orders -/
+
+def ordR : Val := .regF "r" (.int 2)
+def ordQ : Val := .qubit "q" ordR (.int 1)
+/-- `macro m1 x { g x }` -/
+def ordM1 : Macro :=
+  { name := "m1", params := [("x", .none)], body := .block false false (.int 1) [.gate "g" gdG [("p0", .param "x" .none)]] }
+/-- `macro m2 x { m1 x }` -/
+def ordM2 : Macro :=
+  { name := "m2", params := [("x", .none)],
+    body := .block false false (.int 1)
+      [.gate "m1" { name := "m1", tag := .macro, params := [("x", .none)] } [("x", .param "x" .none)]] }
+/-- `macro m3 r { g q }`: the alias `q` under a parameter named like its source -/
+def ordM3 : Macro :=
+  { name := "m3", params := [("r", .none)], body := .block false false (.int 1) [.gate "g" gdG [("p0", ordQ)]] }
+
+/-- `register r[2]; map q r[1]; <the three macros>; m2 r[0]; m3 r` with the macro dictionary in the order `ms` -/
+def mkOrd (ms : List Macro) : Circuit :=
+  { registers := [ordR, ordQ], macros := ms,
+    body := .block false false (.int 1)
+      [.gate "m2" { name := "m2", tag := .macro, params := [("x", .none)] } [("x", .qubit "r[0]" ordR (.int 0))],
+       .gate "m3" { name := "m3", tag := .macro, params := [("r", .none)] } [("r", ordR)]] }
+
+def ordA : Circuit := mkOrd [ordM1, ordM2, ordM3]
+def ordB : Circuit := mkOrd [ordM3, ordM1, ordM2]
+
+theorem ordA_parsedLike : ParsedLike ordA := by
+  refine { constKeys := by simp [ordA, mkOrd], regKeys := by simp [ordA, mkOrd, ordR, ordQ, Val.name?],
+           macroKeys := by simp [ordA, mkOrd, ordM1, ordM2, ordM3], nativeKeys := by simp [ordA, mkOrd],
+           bodyRef := ?_, macrosRef := ?_, ordered := ?_ }
+  · simp [ordA, mkOrd, StmtAll, StmtsAll, ArgRef, QRef, ordR, ordQ]
+  · intro m hm
+    simp only [ordA, mkOrd, List.mem_cons, List.not_mem_nil, or_false] at hm
+    rcases hm with rfl | rfl | rfl <;>
+      simp [ordA, mkOrd, ordM1, ordM2, ordM3, StmtAll, StmtsAll, ArgRef, QRef, Declared, ordR, ordQ, Val.name?]
+  · apply RoundTrip.macrosOrdered_of_check
+    simp [ordA, mkOrd, ordM1, ordM2, ordM3, RoundTrip.orderedFrom, ExpandMacros.inScope, ExpandMacros.inScopeList]
+
+theorem ordB_parsedLike : ParsedLike ordB := by
+  refine { constKeys := by simp [ordB, mkOrd], regKeys := by simp [ordB, mkOrd, ordR, ordQ, Val.name?],
+           macroKeys := by simp [ordB, mkOrd, ordM1, ordM2, ordM3], nativeKeys := by simp [ordB, mkOrd],
+           bodyRef := ?_, macrosRef := ?_, ordered := ?_ }
+  · simp [ordB, mkOrd, StmtAll, StmtsAll, ArgRef, QRef, ordR, ordQ]
+  · intro m hm
+    simp only [ordB, mkOrd, List.mem_cons, List.not_mem_nil, or_false] at hm
+    rcases hm with rfl | rfl | rfl <;>
+      simp [ordB, mkOrd, ordM1, ordM2, ordM3, StmtAll, StmtsAll, ArgRef, QRef, Declared, ordR, ordQ, Val.name?]
+  · apply RoundTrip.macrosOrdered_of_check
+    simp [ordB, mkOrd, ordM1, ordM2, ordM3, RoundTrip.orderedFrom, ExpandMacros.inScope, ExpandMacros.inScopeList]
+
+/-- the two circuits compare equal, list their macros in different orders, and contain the shadowed alias; neither is
+`ParserLike`, both are `ParsedLike`: `C20_sound_parsedLike` applies where `C20_sound` does not -/
+example (ρ : Sem.Env) : circuitEq ordA ordB = true ∧ ordA.macros.map (·.name) ≠ ordB.macros.map (·.name) ∧
+    MeaningEq (Sem.meaning ρ ordA) (Sem.meaning ρ ordB) := by
+  have heq : circuitEq ordA ordB = true := by
+    simp [circuitEq, dictEq, ordA, ordB, mkOrd, ordM1, ordM2, ordM3, ordR, ordQ, gdG, valEq, Val.name?, Num.veq, stmtEq,
+      stmtsEq, argsEq, macroEq, paramsEq, listEqB]
+  exact ⟨heq, by simp [ordA, ordB, mkOrd, ordM1, ordM2, ordM3],
+    (C20_sound_parsedLike ρ ordA ordB ordA_parsedLike ordB_parsedLike heq).2.2⟩
 
 /-! ## generator lemmas for C01 -/
 
@@ -397,6 +598,12 @@ end Jaqal.C20
 #print axioms Jaqal.C20.C20_discriminates_number
 #print axioms Jaqal.C20.C20_ignored_fields_meaningless
 #print axioms Jaqal.C20.C20_sound
+#print axioms Jaqal.C20.C20_sound_ordered
+#print axioms Jaqal.C20.C20_sound_parsedLike
+#print axioms Jaqal.C20.C20_sound_parsed
+#print axioms Jaqal.C20.C20_sound_full_false
+#print axioms Jaqal.C20.C20_shadow_accepted
+#print axioms Jaqal.C20.C20_shadow_parsedLike_not_parserLike
 #print axioms Jaqal.C20.C20_gen_splice
 #print axioms Jaqal.C20.C20_gen_names
 #print axioms Jaqal.C20.C20_gen_total
